@@ -488,6 +488,38 @@ let handle (fields : string list) : string * string =
         else if String.length impl >= 6 && String.sub impl 0 6 = "st=200" && (String.length m < 6 || String.sub m 0 6 <> "st=200")
         then "fail:connection-file-issued-against-the-specification"
         else "fail:download-differs")
+  | "httpauth" :: bits :: meth :: values :: basic :: ans :: valid :: impl :: [] ->
+    let m = { m_openid = bits.[0] = '1'; m_kerberos = bits.[1] = '1'; m_local = bits.[2] = '1'; m_ntlm = bits.[3] = '1' } in
+    let vals = if values = "none" then [] else List.map bytes_of_hex (split_on ',' values) in
+    let bas = (match split_on ':' basic with
+        | [u; p] when basic <> "-" -> Some (bytes_of_hex u, bytes_of_hex p)
+        | _ -> None) in
+    let bk = (match split_on ':' ans with
+        | ["basic"; "1"] -> BkBasic true | ["basic"; "0"] -> BkBasic false
+        | ["ntlmchal"] -> BkNtlmChallenge [byte_of_int 42]
+        | ["ntlmok"; u] -> BkNtlmOk (bytes_of_hex u)
+        | ["ntlmno"] -> BkNtlmNo | ["err"] -> BkError
+        | _ -> BkKerberos (n_of_int 401)) in
+    let route = Model.pick_route m vals in
+    let ch l = match l with [] -> "-" | _ -> String.concat "," (List.map hex_of_bytes l) in
+    let mo = (match Model.dispatch m vals bas bk with
+        | Handler _ -> if meth = "RDG_OUT_DATA" then "st=101 ch=-" else "st=200 ch=-"
+        | Status (c, l) -> Printf.sprintf "st=%d ch=%s" (int_of_n c) (ch l)
+        | NotFound -> "st=404 ch=-") in
+    (* the SPNEGO library's exact refusal is not modelled: any refusal status is accepted on that route *)
+    let refused = List.exists (fun p -> String.length impl >= String.length p && String.sub impl 0 (String.length p) = p)
+        ["st=400"; "st=401"; "st=403"; "st=500"] in
+    let mo = if route = RKerberos && refused then impl else mo in
+    let reached = String.length impl >= 6 && (String.sub impl 0 6 = "st=101" || String.sub impl 0 6 = "st=200") in
+    let openid_only = m.m_openid && not m.m_kerberos && not m.m_local && not m.m_ntlm in
+    let to_b str = List.map (fun c -> byte_of_int (Char.code c)) (List.of_seq (String.to_seq str)) in
+    let shadowed = m.m_ntlm && valid = "basic" &&
+                   List.exists (fun v -> Model.contains_sub (to_b "NTLM") v || Model.contains_sub (to_b "Negotiate") v) vals in
+    (mo, if valid <> "-" && not openid_only && not reached
+         then (if shadowed then "fail:route-shadowing" else "fail:confirmed-credentials-refused")
+         else if mo = impl then "ok"
+         else if reached then "fail:handler-reached-without-confirmed-credentials"
+         else "fail:http-auth-differs")
   | k :: _ -> failwith ("unknown kind " ^ k)
   | [] -> failwith "empty line"
 
